@@ -225,6 +225,8 @@ CHECKS["C17"] = {
         J("literal", "c17", "TestLiteral", 2500, 60000, 4),
         J("crosstype", "c17", "TestCrossType", 1200, 30000, 4),
         J("conversions", "c17", "TestConversions", 800, 15000, 2),
+        J("structshapes", "c17", "TestStructShapes", 600, 10000, 2),
+        J("inconvertible", "c17", "TestInconvertible", 600, 10000, 2),
         J("known", "c17", "TestKnownAnyNumberKind", None, None),
     ],
     "assumptions": [
